@@ -342,6 +342,15 @@ mut("a-c07-token-inserted-in-front", "C07", "C07.R8", (TK, "                    
 mut("a-c12-walk-beyond-the-block", "C12", "C12.R6", (BI, "                    if pos > end_byte_pos {\n                        break;\n                    }\n", ""))
 mut("a-c16-tab-counter-inverted", "C16", "C16.R6b", (BC, ".fold(0, |acc, v| if v == '\\t' { acc + 1 } else { acc })", ".fold(0, |acc, v| if v != '\\t' { acc + 1 } else { acc })"))
 mut("a-c16-line-not-put-back", "C16", "C16.R9", (LS, "                str.push_str(l);\n", ""))
+# third operator set of the audit: traversals shortened by an adaptor
+mut("a3-c09-only-first-attribute", "C09", "C09.R1", (EP, "                    .iter()\n                    .map(|(name, value)| Attribute {", "                    .iter().take(1)\n                    .map(|(name, value)| Attribute {"))
+mut("a3-c03-first-tree-skipped", "C03", "C03.R8", (RM, "        ranges.into_iter().fold(vec![], |mut acc, tree| {", "        ranges.into_iter().skip(1).fold(vec![], |mut acc, tree| {"))
+mut("a3-c12-first-kept-child-dropped", "C12", "C12.R4", (RM, "acc.extend(child_markers[start_cursor..end_cursor].iter().map(", "acc.extend(child_markers[start_cursor..end_cursor].iter().skip(1).map("))
+mut("a3-c17-tail-skips-one", "C17", "C17.R2", (RM, "                ranges_pending[range_cursor..ranges_pending.len()]\n                    .iter()\n", "                ranges_pending[range_cursor..ranges_pending.len()]\n                    .iter().skip(1)\n"))
+mut("a3-c16-first-highlighted-line-lost", "C16", "C16.R9", (LS, "            .lines()\n            .map(|l| {", "            .lines().skip(1)\n            .map(|l| {"))
+mut("a3-c16-pretty-skips-first-item", "C16", "C16.R2", (LS, "    let mut output: String = markers\n        .iter()\n", "    let mut output: String = markers\n        .iter().skip(1)\n"))
+mut("a3-c12-no-block-formatter-asked", "C12", "C12.R7", (FM, "let ranges = structure_formatters.iter().fold(vec![], |mut v, f| {", "let ranges = structure_formatters.iter().skip(1).fold(vec![], |mut v, f| {"))
+mut("a3-c12-new-ranges-never-merged", "C12", "C12.R7", (FM, "    while !new_ranges.is_empty() {", "    while !new_ranges.len() == 1 {"))
 mut("a-c17-cursor-starts-at-1", "C17", "C17.R4", (RM, "        let mut range_cursor = 0;", "        let mut range_cursor = 1;"))
 mut("a-c17-touching-pending-first", "C17", "C17.R4", (RM, "                if pending_range.start >= range.end {", "                if pending_range.start > range.end {"))
 mut("a-c17-inside-left-for-later", "C17", "C17.R4", (RM, "                if pending_range.start >= range.end {", "                if pending_range.start >= range.start {"))
